@@ -15,6 +15,7 @@ import (
 	"verifmc/engine/events"
 	"verifmc/engine/reg"
 
+	_ "verifmc/props/c34"
 	_ "verifmc/props/c41"
 )
 
